@@ -68,6 +68,23 @@ func callWithConstArg(info *types.Info, e ast.Expr) bool {
 	return false
 }
 
+// callWithArithLocal: a call one of whose arguments is a local defined once as an arithmetic expression
+// (t := a + b; f(t)): the same formula as f(a + b), which the resolved form spells out.
+func callWithArithLocal(info *types.Info, e ast.Expr, defs map[types.Object]localDef) bool {
+	call, ok := ast.Unparen(e).(*ast.CallExpr)
+	if !ok || isConversion(info, call) {
+		return false
+	}
+	for _, a := range call.Args {
+		if id, ok := ast.Unparen(stripConv(info, a)).(*ast.Ident); ok {
+			if d, ok := defs[info.Uses[id]]; ok && d.pos == 0 && d.n == 1 && d.rhs != nil && hasArith(d.rhs) {
+				return true
+			}
+		}
+	}
+	return false
+}
+
 func hasBoolOp(e ast.Expr) bool {
 	found := false
 	ast.Inspect(e, func(n ast.Node) bool {
@@ -511,7 +528,7 @@ func formulasIn(pk *packages.Package, fd *ast.FuncDecl, fn string, subst map[typ
 				return
 			}
 		}
-		if rhs != nil && !hasArith(rhs) && !callWithConstArg(info, rhs) && !inlinedArith(info, rhs) {
+		if rhs != nil && !hasArith(rhs) && !callWithConstArg(info, rhs) && !inlinedArith(info, rhs) && !callWithArithLocal(info, rhs, fdefs) {
 			// a bare value is a formula only for accumulators (x += v)
 			if tok == token.ASSIGN {
 				return
@@ -593,7 +610,7 @@ func formulasIn(pk *packages.Package, fd *ast.FuncDecl, fn string, subst map[typ
 		if !ok || hd.fd == fd || hd.fd.Body == nil || hd.fd.Recv != nil {
 			return
 		}
-		if _, single := polyInline[hf]; single {
+		if ih, single := polyInline[hf]; single && ih.defs == nil {
 			return // read in place by exprPoly
 		}
 		saved := polyArgs
@@ -714,7 +731,7 @@ func formulasIn(pk *packages.Package, fd *ast.FuncDecl, fn string, subst map[typ
 			}
 			curStmt = x
 			for i, r := range x.Results {
-				if hasArith(r) || hasBoolOp(r) {
+				if hasArith(r) || hasBoolOp(r) || ((callWithConstArg(info, r) || callWithArithLocal(info, r, fdefs)) && isErrorT(info.TypeOf(r))) {
 					add(fmt.Sprintf("return#%d", i), token.ASSIGN, nil, r, x.Pos())
 				}
 			}
@@ -1094,6 +1111,45 @@ func ruleFormulaSpec(c *Ctx) {
 			verdicts[i] = verdict{status: "missing", msg: fmt.Sprintf("function %s not found (or has no arithmetic)", e.fn)}
 			continue
 		}
+		if e.target == "err" {
+			// an error variable is a shared scratch target (err = a(); … err = b()): which calls are assigned to it says
+			// nothing; each reviewed call formula must be made somewhere in the function or its helpers, under any target
+			allFound, changed := true, ""
+			var at token.Pos
+			for k := range e.named {
+				found := false
+				callName := e.named[k]
+				if j := strings.Index(callName, "("); j > 0 {
+					callName = callName[:j+1]
+				}
+				for _, sv := range sites {
+					for _, cand := range []string{sv.named, sv.res} {
+						if cand == e.named[k] || (k < len(e.res) && e.res[k] != "~" && cand == e.res[k]) {
+							found = true
+							at = sv.pos
+						}
+					}
+				}
+				if !found {
+					allFound = false
+					for _, sv := range sites {
+						if strings.HasPrefix(sv.named, callName) && strings.HasSuffix(callName, "(") {
+							changed = sv.named
+							at = sv.pos
+						}
+					}
+				}
+			}
+			switch {
+			case allFound:
+				verdicts[i] = verdict{"ok", "named", at, e.spec}
+			case changed != "":
+				verdicts[i] = verdict{"bad", "", at, fmt.Sprintf("%s makes the call {%s} where the reviewed one is {%s} — spec: %s", e.fn, changed, strings.Join(e.named, " ; "), e.spec)}
+			default:
+				verdicts[i] = verdict{status: "missing", pos: at, msg: fmt.Sprintf("the reviewed call(s) {%s} are not made in %s or an unexported helper it calls (%s)", strings.Join(e.named, " ; "), e.fn, e.spec)}
+			}
+			continue
+		}
 		var pos0 token.Pos
 		if len(sites) > 0 {
 			pos0 = sites[0].pos
@@ -1236,7 +1292,7 @@ func ruleFormulaSpec(c *Ctx) {
 		return m
 	}
 	for i, e := range formulaTable {
-		if verdicts[i].status != "missing" || strings.ContainsAny(e.target, ":#.[") {
+		if verdicts[i].status != "missing" || e.target == "err" || strings.ContainsAny(e.target, ":#.[") {
 			continue
 		}
 		users, allRes := 0, true
@@ -1259,7 +1315,7 @@ func ruleFormulaSpec(c *Ctx) {
 	// a reviewed assignment that is gone while its target is still a variable of the function was REMOVED (the value the
 	// variable then carries on is the one from before: a stale count, an unrounded balance), not moved or renamed
 	for i, e := range formulaTable {
-		if verdicts[i].status != "missing" || strings.ContainsAny(e.target, ":#.[") {
+		if verdicts[i].status != "missing" || e.target == "err" || strings.ContainsAny(e.target, ":#.[") {
 			continue
 		}
 		if _, ok := all[e.fn]; !ok {
@@ -1341,5 +1397,5 @@ func inlinedArith(info *types.Info, e ast.Expr) bool {
 	if !ok || hd.info != info {
 		return false
 	}
-	return hasArith(hd.fd.Body.List[0].(*ast.ReturnStmt).Results[0])
+	return hd.defs == nil && hasArith(hd.ret)
 }
